@@ -820,7 +820,8 @@ func (n *normalizer) sinkRound() bool {
 			case *ast.ExprStmt:
 				call, _ = y.X.(*ast.CallExpr)
 			}
-			if call != nil && len(call.Args) == 0 {
+			if call != nil {
+				// (arguments are evaluated where the literal is called or started, as before)
 				if lit, ok := ast.Unparen(call.Fun).(*ast.FuncLit); ok {
 					onceLit[lit] = true
 				}
@@ -964,6 +965,11 @@ func (n *normalizer) sinkRound() bool {
 						}
 					}
 				}
+			}
+			if se, isSel := v.(*ast.SelectorExpr); isSel && !okInit {
+				// a field path x.f.g rooted at a variable that is never reassigned, whose last field nothing in the declaring
+				// function assigns (configuration read where the goroutine starts instead of just before)
+				okInit = n.stableFieldPath(se, di.encl, lit)
 			}
 			if !okInit {
 				continue
@@ -1981,6 +1987,7 @@ func (n *normalizer) structAssignRound() bool {
 					as  *ast.AssignStmt
 					idx int
 					lit *ast.CompositeLit
+					src *ast.Ident // instead of a literal: another local of the same struct type, copied as a whole
 				}
 				var sels []*ast.SelectorExpr
 				var blanks []*ast.AssignStmt
@@ -2005,9 +2012,16 @@ func (n *normalizer) structAssignRound() bool {
 							for i, l := range p.Lhs {
 								if l == ast.Expr(id) {
 									if lit := keyedLit(p.Rhs[i], cd.named); lit != nil && isListParent(parentOf[p], p) {
-										wholes = append(wholes, wholeAssign{p, i, lit})
+										wholes = append(wholes, wholeAssign{p, i, lit, nil})
 										nWhole++
 										return true
+									}
+									if rid, isID := ast.Unparen(p.Rhs[i]).(*ast.Ident); isID && isListParent(parentOf[p], p) {
+										if ro, _ := n.info.Uses[rid].(*types.Var); ro != nil && ro != cd.obj && !ro.IsField() && ro.Parent() != n.pp.Types.Scope() && types.Identical(ro.Type(), cd.obj.Type()) {
+											wholes = append(wholes, wholeAssign{p, i, nil, rid})
+											nWhole++
+											return true
+										}
 									}
 								}
 							}
@@ -2103,7 +2117,15 @@ func (n *normalizer) structAssignRound() bool {
 					eds = append(eds, ed{n.off(b.Pos()), n.off(b.End()), strings.Repeat("_, ", nf-1) + "_ = " + strings.Join(names, ", ")})
 				}
 				for _, w := range wholes {
-					ts, vs := spread(w.lit)
+					var ts, vs []string
+					if w.src != nil {
+						for i := 0; i < nf; i++ {
+							ts = append(ts, names[i])
+							vs = append(vs, w.src.Name+"."+cd.st.Field(i).Name())
+						}
+					} else {
+						ts, vs = spread(w.lit)
+					}
 					eds = append(eds, ed{n.off(w.as.Lhs[w.idx].Pos()), n.off(w.as.Lhs[w.idx].End()), strings.Join(ts, ", ")})
 					eds = append(eds, ed{n.off(w.as.Rhs[w.idx].Pos()), n.off(w.as.Rhs[w.idx].End()), strings.Join(vs, ", ")})
 				}
@@ -2674,5 +2696,65 @@ func (n *normalizer) neverAssignedField(fv *types.Var) bool {
 			return true
 		})
 	}
+	return !assigned
+}
+
+// stableFieldPath: se is x.f1…fn, all field selections, x a variable that is never reassigned and means the same inside
+// lit; no statement of the enclosing function assigns a field named by the path's last selection.
+func (n *normalizer) stableFieldPath(se *ast.SelectorExpr, encl ast.Node, lit *ast.FuncLit) bool {
+	var last *types.Var
+	e := ast.Expr(se)
+	for {
+		s, ok := ast.Unparen(e).(*ast.SelectorExpr)
+		if !ok {
+			break
+		}
+		sel := n.info.Selections[s]
+		if sel == nil || sel.Kind() != types.FieldVal {
+			return false
+		}
+		if last == nil {
+			last, _ = sel.Obj().(*types.Var)
+		}
+		e = s.X
+	}
+	id, ok := ast.Unparen(e).(*ast.Ident)
+	if !ok || last == nil {
+		return false
+	}
+	vo, isVar := n.info.Uses[id].(*types.Var)
+	if !isVar || n.varBad[vo] || n.varAssign[vo] != nil {
+		return false
+	}
+	if inner := n.pp.Types.Scope().Innermost(lit.Body.Lbrace + 1); inner != nil {
+		if _, found := inner.LookupParent(id.Name, lit.Body.Lbrace+1); found != types.Object(vo) {
+			return false
+		}
+	}
+	if encl == nil {
+		return false
+	}
+	assigned := false
+	ast.Inspect(encl, func(x ast.Node) bool {
+		var lhs []ast.Expr
+		switch y := x.(type) {
+		case *ast.AssignStmt:
+			lhs = y.Lhs
+		case *ast.IncDecStmt:
+			lhs = []ast.Expr{y.X}
+		case *ast.UnaryExpr:
+			if y.Op == token.AND {
+				lhs = []ast.Expr{y.X}
+			}
+		}
+		for _, l := range lhs {
+			if s, ok := ast.Unparen(l).(*ast.SelectorExpr); ok {
+				if sel := n.info.Selections[s]; sel != nil && sel.Obj() == types.Object(last) {
+					assigned = true
+				}
+			}
+		}
+		return !assigned
+	})
 	return !assigned
 }
